@@ -27,8 +27,7 @@ RULE = ("kernel level: full tie grid (fcst, obs, theta on a common dyadic grid s
         "on/off, all request spellings, malformed alpha / huber_a / functional); murphy_thetas with 1-3 forecast sources, NaN, +-inf, "
         "left_limit_delta and huber_a from a grid; a case is distinct by the hash of (function, inputs, options) and non-trivial when it "
         "yields a finite value, a non-empty theta list or exercises an error path")
-ASSUMPTIONS = ["fcst and obs store shared coordinates in the same order",
-               "murphy_thetas (huber / expectile): the forecast sources have one common shape (ragged sources are the recorded finding murphy-thetas-ragged-sources)"]
+ASSUMPTIONS = ["labelled inputs carry identical label sets along shared dimensions (storage order and dimension order vary freely)"]
 TRUSTED = ["R-level theorems (coq/proofs/C11_RInt.v): Coq Reals + Coquelicot and their standard axioms, as listed per theorem"]
 
 INF = float("inf")
@@ -157,7 +156,8 @@ def murphy_cases(ctx, n):
         sizes = gens.rand_sizes(rng)
         perms = {d: rng.sample(range(sizes[d]), sizes[d]) for d in sizes}
         fcst = mk(rng, sizes, sizes, perms, nan_p=0.12 if rng.random() < 0.4 else 0.0)
-        obs = mk(rng, sizes, gens.sub_dims(rng, sizes, p_drop=0.25), perms, nan_p=0.12 if rng.random() < 0.3 else 0.0)
+        operms = {d: rng.sample(range(sizes[d]), sizes[d]) for d in sizes}
+        obs = mk(rng, sizes, gens.sub_dims(rng, sizes, p_drop=0.25), operms, nan_p=0.12 if rng.random() < 0.3 else 0.0)
         if rng.random() < 0.4:
             obs = gens.force_ties(rng, fcst, obs)
         thetas = gen_thetas(rng, fcst, obs)
@@ -204,7 +204,7 @@ def gen_sources(rng, ragged=False):
     rng.shuffle(order)
     for j in range(k):
         sz = gens.rand_sizes(rng, maxdims=2) if (ragged and j > 0) else sizes
-        # huber / expectile need one common shape (dimension order included): see the finding murphy-thetas-ragged-sources
+        # sources may differ in shape and dimension order for every functional (38f0f85)
         da = gens.rand_da(rng, sz, dims=None if ragged else order, shuffle=ragged, den=2, bound=4, nan_p=0.15 if rng.random() < 0.4 else 0.0)
         if rng.random() < 0.1:
             v = da.values.ravel()
@@ -226,7 +226,7 @@ def thetas_cases(ctx, n):
         if not ctx.time_left():
             break
         fn = rng.choice(FUNCS)
-        fcsts, obs = gen_sources(rng, ragged=(fn == "quantile" and rng.random() < 0.3))
+        fcsts, obs = gen_sources(rng, ragged=rng.random() < 0.4)
         bad = rng.random() < 0.12
         huber_a = rng.choice(HUBERS) if (fn == "huber" or rng.random() < 0.2) else None
         delta = rng.choice([None, Fr(0), Fr(1, 4), Fr(1, 2), Fr(1)])
@@ -397,23 +397,131 @@ def guard_probes(ctx):
 
 
 
-def ragged_finding(ctx):
+def ragged_corpus(ctx):
+    """repaired defect 38f0f85: forecast sources of different shape / dimension order are accepted by every functional and give the
+    union of the kinks"""
     C = S()
     f1 = xr.DataArray([[1.0, 2.0]], dims=["a", "b"])
     f2 = xr.DataArray([0.5, 3.0, 1.0], dims=["c"])
+    f3 = xr.DataArray([[1.0], [2.0]], dims=["b", "a"])
     o = xr.DataArray([1.0, 0.0], dims=["b"])
-    base = core.call_impl(C.murphy_thetas, [f1, f2], o, "quantile")
-    for fn in ("expectile", "huber"):
-        got = core.call_impl(C.murphy_thetas, [f1, f2], o, fn, huber_a=1.0)
-        ctx.case(("ragged", fn))
-        if got[0] != base[0]:
-            ctx.violation("murphy_thetas rejects forecast sources of different shapes (quantile accepts them)", {"functional": fn, "shapes": [[1, 2], [3]]},
-                          "list of thetas", str(got[1]), finding_key="murphy-thetas-ragged-sources")
+    want = {"quantile": [0.0, 0.5, 1.0, 2.0, 3.0], "expectile": [0.0, 0.25, 0.5, 0.75, 1.0, 1.75, 2.0, 2.75, 3.0],
+            "huber": [-1.0, 0.0, 0.25, 0.5, 0.75, 1.0, 1.75, 2.0, 2.75, 3.0]}
+    for fn in FUNCS:
+        kw = {"left_limit_delta": 0.25}
+        if fn == "huber":
+            kw["huber_a"] = 1.0
+        for srcs, nm in (([f1, f2], "shapes"), ([f1, f3, f2], "dimension order")):
+            got = core.call_impl(C.murphy_thetas, srcs, o, fn, **kw)
+            ctx.case(("ragged", fn, nm))
+            if got[0] != "ok" or [float(x) for x in got[1]] != want[fn]:
+                ctx.violation("murphy_thetas with forecast sources of different " + nm + " (regression of 38f0f85)",
+                              {"functional": fn, "sources": [gens.da_repr(x) for x in srcs], "obs": gens.da_repr(o), **kw}, want[fn], str(got[1])[:200])
+
+
+# ------------------------------------------------------------------------------------------
+# exact-rational oracle (independent of the Coq model), used by run_without_model
+# ------------------------------------------------------------------------------------------
+def orc_es(fn, alpha, a, f, o, t):
+    """(total, underforecast, overforecast) of the elementary score of Ehm et al. (2016) / Taggart (2022)"""
+    over = under = Fr(0)
+    if o <= t < f:
+        over = (1 - alpha) * {"quantile": Fr(1), "expectile": t - o, "huber": min(t - o, a)}[fn]
+    if f <= t < o:
+        under = alpha * {"quantile": Fr(1), "expectile": o - t, "huber": min(o - t, a)}[fn]
+    return over + under, under, over
+
+
+def oracle_grid(ctx):
+    """murphy_score (decomposition, preserve all) against the oracle on the full tie grid: theta == fcst, theta == obs, fcst == obs"""
+    C = S()
+    grid = [Fr(k, 2) for k in range(-3, 5)]
+    pts = [(f, o) for f in grid for o in grid]
+    F = xr.DataArray([float(f) for f, _ in pts], dims="x")
+    O = xr.DataArray([float(o) for _, o in pts], dims="x")
+    th = grid + [grid[0] - 1, grid[-1] + 1]
+    for fn in FUNCS:
+        for alpha in (Fr(1, 4), Fr(3, 4)):
+            a = Fr(1)
+            kw = {"huber_a": float(a)} if fn == "huber" else {}
+            r = C.murphy_score(F, O, [float(t) for t in th], functional=fn, alpha=float(alpha), decomposition=True, preserve_dims="all", **kw)
+            arr = [r[k].transpose("theta", "x").values for k in NAMES]
+            for j, t in enumerate(th):
+                for i, (f, o) in enumerate(pts):
+                    want = orc_es(fn, alpha, a, f, o, t)
+                    ctx.case(("orc", fn, alpha, f, o, t))
+                    if not all(core.close(arr[k][j][i], want[k]) for k in range(3)):
+                        ctx.violation(f"murphy_score ({fn}) differs from the elementary score definition",
+                                      {"fcst": f, "obs": o, "theta": t, "alpha": alpha, "huber_a": a}, dict(zip(NAMES, want)),
+                                      {NAMES[k]: float(arr[k][j][i]) for k in range(3)})
+    ctx.count("oracle_grid_points", 6 * len(th) * len(pts))
+
+
+def oracle_means(ctx, n):
+    """murphy_score with NaN, sub-dimensional obs and reductions against the oracle (mean over the valid cases)"""
+    rng = ctx.rng
+    C = S()
+    for _ in range(n):
+        if not ctx.time_left():
+            break
+        na, nb = rng.randint(1, 3), rng.randint(1, 3)
+        fv = [[None if rng.random() < 0.15 else Fr(rng.randint(-6, 6), 2) for _ in range(nb)] for _ in range(na)]
+        ov = [None if rng.random() < 0.15 else Fr(rng.randint(-6, 6), 2) for _ in range(nb)]
+        F = xr.DataArray([[NAN if v is None else float(v) for v in row] for row in fv], dims=["a", "b"])
+        O = xr.DataArray([NAN if v is None else float(v) for v in ov], dims=["b"])
+        fn, alpha, a = rng.choice(FUNCS), rng.choice(ALPHAS), rng.choice(HUBERS)
+        th = sorted({Fr(rng.randint(-6, 6), 2) for _ in range(3)} | {v for row in fv for v in row if v is not None and rng.random() < 0.5})
+        red = rng.choice([None, ["a"], ["b"], ["a", "b"]])
+        kw = {"huber_a": float(a)} if fn == "huber" else {}
+        if red is not None:
+            kw["reduce_dims"] = red
+        r = C.murphy_score(F, O, [float(t) for t in th], functional=fn, alpha=float(alpha), decomposition=True, **kw)
+        rset = {"a", "b"} if red is None else set(red)
+        case = {"fcst": fv, "obs": ov, "thetas": th, "functional": fn, "alpha": alpha, "huber_a": a, "reduce_dims": red}
+        ctx.case(("orcmean", repr(case)))
+        for k, name in enumerate(NAMES):
+            got = r[name].transpose("theta", *[d for d in ("a", "b") if d not in rset]).values
+            for j, t in enumerate(th):
+                cell = {}
+                for i in range(na):
+                    for l in range(nb):
+                        key = tuple(x for x, d in ((i, "a"), (l, "b")) if d not in rset)
+                        if fv[i][l] is not None and ov[l] is not None:
+                            cell.setdefault(key, []).append(orc_es(fn, alpha, a, fv[i][l], ov[l], t)[k])
+                        else:
+                            cell.setdefault(key, [])
+                for key, vals in cell.items():
+                    g = got[(j,) + key]
+                    want = sum(vals) / len(vals) if vals else NAN
+                    if not core.close(g, want):
+                        ctx.violation("murphy_score mean differs from the mean elementary score over the valid cases", dict(case, variable=name, theta=t, cell=key), want, float(g))
+                        return
+
+
+def model_available(ctx):
+    b = getattr(ctx, "build", None) or {}
+    return "C11" not in (b.get("excluded_models") or []) and b.get("files", {}).get("model/C11.v", {}).get("ok", True)
+
+
+def run_without_model(ctx):
+    """used when a site no longer translates / the extracted model does not build: implementation-only predicates with the exact
+    rational oracle (elementary scores on the tie grid, means with NaN, kink sets, constancy / affinity between thetas, integral, guards)"""
+    oracle_grid(ctx)
+    ragged_corpus(ctx)
+    guard_probes(ctx)
+    diagram_props(ctx, ctx.n(40, 2500))
+    oracle_means(ctx, ctx.n(60, 3000))
 
 
 def run(ctx):
+    if not model_available(ctx):
+        ctx.tie_fail("coq/model/C11.v does not build against the current source (a translator site is untranslatable or changed shape)",
+                     {"files": {k: v for k, v in (ctx.build.get("files") or {}).items() if not v.get("ok")}}, "-", "-")
+        return run_without_model(ctx)
     kernel_grid(ctx)
-    ragged_finding(ctx)
+    oracle_grid(ctx)
+    oracle_means(ctx, ctx.n(30, 1500))
+    ragged_corpus(ctx)
     guard_probes(ctx)
     diagram_props(ctx, ctx.n(40, 2500))
     murphy_cases(ctx, ctx.n(220, 12000))
